@@ -5,6 +5,7 @@ CONSTANTS
   MaxFail = 1
   MaxReg = 2
   MaxRec = 5
+  GenCap <- SmallCap
   Presets <- PresetsFull
 VIEW View
 INVARIANT Inv
